@@ -58,6 +58,8 @@ def errStr : Err → String
   | .value => "value"
   | .typeErr => "type"
   | .attr => "attr"
+  | .eop => "eop"
+  | .index => "index"
   | .bad => "bad"
 
 partial def dumpRef (h : Heap) (st : DS) (r : Ref) : String × DS :=
@@ -83,21 +85,21 @@ partial def dumpRef (h : Heap) (st : DS) (r : Ref) : String × DS :=
         let (ss, st) := many st items
         (s!"L{id}[" ++ joinWith "," ss ++ "]", st)
       | some (.dict items) =>
-        -- `cov: None` and an empty maneuver list are what the getters create on first read: not shown
-        let items := (sortItems items).filter (fun kv =>
-          !(kv.1 = "cov" && kv.2 = .none) &&
-          !(kv.1 = "maneuvers" && (match kv.2 with | .addr l => h[l]? = some (.list []) | _ => false)))
+        -- `cov: None` is what the getter leaves on first read (an immutable value): not shown; the empty maneuver
+        -- list created the same way is a mutable object and is shown
+        let items := (sortItems items).filter (fun kv => !(kv.1 = "cov" && kv.2 = .none))
         let (ss, st) := many st (items.map (·.2))
         (s!"D{id}" ++ "{" ++ joinWith "," ((items.map (·.1)).zipWith (fun k s => k ++ "=" ++ s) ss) ++ "}", st)
       | some (.sv o b d) =>
         let (sb, st) := dumpRef h st (.addr b)
         let (sd, st) := dumpRef h st (.addr d)
         (s!"S{id}({if o then "O" else "V"},{sb},{sd})", st)
-      | some (.cov v fr orb ofr) =>
+      | some (.cov b fr orb ofr) =>
+        let (sb, st) := dumpRef h st (.addr b)
         let (sf, st) := dumpFr st fr
         let (sof, st) := dumpFr st ofr
         let (so, st) := dumpRef h st (.addr orb)
-        (s!"C{id}(<{valStr v}>,{sf},{sof},{so})", st)
+        (s!"C{id}({sb},{sf},{sof},{so})", st)
       | some .clone => (s!"?clone{id}", st)
       | none => (s!"?{id}", st)
 
@@ -112,16 +114,26 @@ structure St where
 def var? (st : St) (s : String) : Option Nat := s.toNat?.bind (fun i => st.env[i]?)
 
 /-- `new k orbit form frame meta nmans cov covframe` : the objects the harness builds with `make_state` -/
-def opNew (st : St) (k : Nat) (orbit : Bool) (form : String) (frame : Fr) (hasMeta : Bool) (nmans : Nat) (cov : Bool) (covframe : String) : St × String :=
+def opNew (st : St) (k : Nat) (orbit : Bool) (form : String) (frame : Fr) (metaV : Nat) (nmans : Nat) (cov : Bool) (covframe : String) : St × String :=
   let h := st.h
   let (h, b) := alloc h (.buf (.init k))
   let (h, items) : Heap × Items :=
-    if hasMeta then
+    if metaV = 1 then          -- non-empty and nested containers
       let (h, tags) := alloc h (.list [.tok 2, .tok 3])
       let (h, kl) := alloc h (.list [.tok 1, .tok 2])
       let (h, nested) := alloc h (.dict [("k", .addr kl), ("s", .tok 6)])
       let (h, arr) := alloc h (.arr 7)
       (h, [("name", .tok 1), ("tags", .addr tags), ("nested", .addr nested), ("arr", .addr arr)])
+    else if metaV = 2 then     -- empty containers
+      let (h, tags) := alloc h (.list [])
+      let (h, nested) := alloc h (.dict [])
+      (h, [("name", .tok 1), ("tags", .addr tags), ("nested", .addr nested)])
+    else if metaV = 3 then     -- an empty container inside a non-empty one
+      let (h, tags) := alloc h (.list [])
+      let (h, kl) := alloc h (.list [])
+      let (h, nested) := alloc h (.dict [("k", .addr kl), ("s", .tok 6)])
+      let (h, arr) := alloc h (.arr 7)
+      (h, [("tags", .addr tags), ("nested", .addr nested), ("arr", .addr arr)])
     else (h, [])
   let items := items ++ [("date", .tok (100 + k)), ("form", .form form), ("frame", .frame frame)]
   let (h, d) := alloc h (.dict items)
@@ -168,9 +180,10 @@ def step (st : St) (op : List String) : Option (St × String) :=
   | ["new", k, o, form, frame, m, nm, c, cf] => do
     let k ← k.toNat?
     let nm ← nm.toNat?
+    let m ← m.toNat?
     let fr ← resolveFrame frame
     let f ← resolveForm form
-    pure (opNew st k (o = "1") f fr (m = "1") nm (c = "1") cf)
+    pure (opNew st k (o = "1") f fr m nm (c = "1") cf)
   | ["copy", i] => do let a ← var? st i; pure (newRes st (copySV st.h a))
   | ["copyf", i, f] => do let a ← var? st i; pure (newRes st (copyForm st.h a f))
   | ["copyfr", i, f] => do let a ← var? st i; pure (newRes st (copyFrame st.h a f))
@@ -181,12 +194,29 @@ def step (st : St) (op : List String) : Option (St × String) :=
   | ["assv", i] => do let a ← var? st i; pure (newRes st (asSV st.h a))
   | ["setf", i, f] => do let a ← var? st i; pure (unitRes st (setForm st.h a f))
   | ["setfr", i, f] => do let a ← var? st i; pure (unitRes st (setFrame st.h a f))
+  -- a frame assignment the environment makes fail: `iso` — the target is a frame (orientation of `f`) whose centre
+  -- has no link to any other; `eop` — no Earth-orientation data for the date under the 'error' policy
+  | ["setfrx", i, _, "iso"] => do let a ← var? st i; pure (unitRes st (setFrameTo st.h a (.reg "Isolated" 0) (fun _ _ => some .value)))
+  | ["setfrx", i, f, "eop"] => do let a ← var? st i; pure (unitRes st (setFrame st.h a f (fun x y => if x = "EME2000" || y = "EME2000" then some .eop else none)))
+  | ["ctor", i, o] => do
+    let a ← var? st i
+    if o = "1" then
+      let (h, p) := alloc st.h (.prop 0)
+      pure (newRes { st with h := h } (ctor h a (some p)))
+    else pure (newRes st (ctor st.h a none))
+  | ["readman", i] => do let a ← var? st i; pure (unitRes st (readMan st.h a))
+  | ["lappend", i, key, x] => do let a ← var? st i; let x ← x.toNat?; pure (unitRes st (metaAppend st.h a key x))
+  | ["dset", i, key, x] => do let a ← var? st i; let x ← x.toNat?; pure (unitRes st (metaSetItem st.h a key x))
+  | ["nappend", i, x] => do let a ← var? st i; let x ← x.toNat?; pure (unitRes st (nestedAppend st.h a x))
+  | ["aset", i, _] => do let a ← var? st i; pure (unitRes st (arrSet st.h a))
+  | ["covfrom", i, j] => do let a ← var? st i; let b ← var? st j; pure (unitRes st (covFrom st.h a b))
   | ["seta", i, name, x] => do let a ← var? st i; let x ← x.toNat?; pure (unitRes st (setAttr st.h a name x))
   | ["seti", i, k, x] => do let a ← var? st i; let k ← k.toNat?; let x ← x.toNat?; pure (unitRes st (setIdx st.h a k x))
   | ["covfr", i, f] => do let a ← var? st i; pure (unitRes st (covFrame st.h a f))
   | ["addman", i, t] => do let a ← var? st i; let t ← t.toNat?; pure (unitRes st (addMan st.h a t))
   | ["setcov", i, k] => do let a ← var? st i; let k ← k.toNat?; pure (unitRes st (setCov st.h a k))
   | ["pickle", i] => do let a ← var? st i; pure (newRes st (pickle st.h a))
+  | ["dcopy", i] => do let a ← var? st i; pure (newRes st (stdDeepcopy st.h a))
   | _ => none
 
 def splitOps (toks : List String) : List (List String) :=
